@@ -81,12 +81,6 @@ UlpLE(f, a, b, tol) ==
     IF a.s = b.s THEN Abs(SatMagDiff(f, a, b)) <= tol
     ELSE LET ma == SatMagDiff(f, a, Zero(0)) mb == SatMagDiff(f, b, Zero(0)) IN
          ma <= tol /\ mb <= tol /\ ma + mb <= tol
-\* coarse variant for binary64: distance measured in units of 2^W ulps (relative 2^-(P-W)), tolh < 2^20
-UlpLEHi(f, a, b, tolh) ==
-    IF a.s # b.s THEN a.e = 0 /\ b.e = 0 /\ a.h + b.h <= tolh
-    ELSE LET de == a.e - b.e IN
-         IF de >= 2 \/ de <= -2 THEN FALSE
-         ELSE Abs(de * Pow2(HW(f)) + (a.h - b.h)) <= tolh
 
 (* ------------------------------------------ rounding to integers ------------------------------------------ *)
 \* number of fraction bits of a finite x with |x| >= 1:   P - (e - bias), >= 1 when x can have a fraction
@@ -417,14 +411,11 @@ SpecialMidpoint(f, a, b) ==
     ELSE IF a = b THEN RNum(a) ELSE RNone
 
 (* ------------------------------------ approximate set: the relation ------------------------------------ *)
-\* r: result of the implementation, c: result of libm for the same input (observation), tol: allowed distance.
-\*  - libm NaN  (domain error)            => r NaN
-\*  - otherwise r is not NaN and lies within tol units in the last place of c, where infinity counts as the value
-\*    one step beyond the largest finite number (an overflow threshold may be missed by tol ulps, not more)
-ApproxOK(f, r, c, tol, tolh) ==
-    IF IsNaN(f, c) THEN IsNaN(f, r)
-    ELSE /\ ~IsNaN(f, r)
-         /\ IF tolh = 0 THEN UlpLE(f, r, c, tol) ELSE UlpLEHi(f, r, c, tolh)
+\* r: result of the implementation, c: result of libm for the same input (a recorded observation).  Where Annex F
+\* fixes the value (Special*) r must be that value; otherwise (FloatTrace.ApproxVerdict):
+\*  - libm NaN (domain error)  =>  r NaN
+\*  - otherwise r is not NaN and UlpLE(r, c, Tol[f]): infinity counts as the value one step beyond the largest finite
+\*    number, so an overflow threshold may be missed by Tol ulps, not more
 SpecialOK(f, req, r) ==
     CASE req.k = "nan" -> IsNaN(f, r)
       [] req.k = "val" -> r = req.v
